@@ -228,7 +228,7 @@ def canon_impl(out, log, reg, logged):
         s = 'ok dict=' + d
     else:
         s = 'err kind=' + out[1]
-    calls = ','.join(reg.enc_str(x) for x in log) if logged else None
+    calls = ','.join(reg.enc_str(x) if type(x) is str else 'nonstr-' + type(x).__name__ for x in log) if logged else None
     return s, calls
 
 
